@@ -1,8 +1,7 @@
 SPECIFICATION Spec
-CONSTANTS Lines <- Id7  Prog <- ProgLoopSub  BpSets <- Bps2  MaxReq = 3  Deviations <- NoDev  Fuel = 40
+CONSTANTS Lines <- LinesDup  Prog <- ProgDup  BpSets <- BpsDup  MaxReq = 3  Deviations <- NoDev  Fuel = 20
 INVARIANT TypeOK
 INVARIANT StoppedIsHalted
-INVARIANT InspectConsistent
 INVARIANT NoSkippedBreakpoint
 INVARIANT NoSkipAfterProbe
 INVARIANT StepExact
